@@ -81,6 +81,7 @@ Record state := mkstate {
 
 Inductive err :=
 | EValue | EKey | EIndex | EType | EAasd (n : nat)
+| EIter          (* the exception raised by the caller's own iterable (a generator that fails) *)
 | ENoMethod      (* the addressed set does not exist / has no such method (plain set, ordered call) *)
 | EInternal      (* a branch the Python code cannot reach from a consistent state (a ValueError of
                     list.remove, a None dict key, ...); proved unreachable in C01_no_internal_error *).
@@ -480,7 +481,7 @@ Definition set_setslice (c : cfg) (s : state) (i : nat) (a b : option Z) (es : l
       remove_all c s2 i deleted)
   end.
 
-(* OrderedNamespaceSet.__delitem__(slice a:b); an int i is slice(i, i+1) *)
+(* OrderedNamespaceSet.__delitem__(slice a:b) *)
 Definition set_delslice (c : cfg) (s : state) (i : nat) (a b : option Z) : res :=
   match order_of s i with
   | None => (s, Err ENoMethod)
@@ -489,6 +490,18 @@ Definition set_delslice (c : cfg) (s : state) (i : nat) (a b : option Z) : res :
       let hi := slice_hi (List.length o) a b in
       bind (remove_all c s i (firstn (hi - lo) (skipn lo o))) (fun s1 =>
       (set_order s1 i (firstn lo o ++ skipn hi o), Ok))
+  end.
+
+(* OrderedNamespaceSet.__delitem__(int): self._order[i] (IndexError when out of range), then the
+   slice (i, i+1) - (-1, None) for the last item -, i.e. the one position p *)
+Definition set_delitem (c : cfg) (s : state) (i : nat) (z : Z) : res :=
+  match order_of s i with
+  | None => (s, Err ENoMethod)
+  | Some o =>
+      match py_idx (List.length o) z with
+      | None => (s, Err EIndex)
+      | Some p => set_delslice c s i (Some (Z.of_nat p)) (Some (Z.of_nat p + 1)%Z)
+      end
   end.
 
 (* for x in items: set.add(x), stopping at the first exception (MutableSequence.extend,
@@ -500,20 +513,24 @@ Fixpoint add_each (c : cfg) (s : state) (i : nat) (es : list nat) : res :=
   end.
 
 (* NamespaceSet.__init__ / OrderedNamespaceSet.__init__ / SubmodelElementList.__init__ *)
+(* [items] is what the caller's iterable yields; with [fails] it raises after the last of them (a
+   generator / parser that fails while it is consumed): the try block covers the whole loop, so
+   the set is cleared in that case as well *)
 Definition construct_one (c : cfg) (s : state) (o : nat) (ordered : bool) (hk : option lcfg)
-           (items : list nat) : res :=
+           (items : list nat) (fails : bool) : res :=
   let i := List.length (sets s) in
   let s0 := mkstate (sets s ++ [mkset o hk [] (if ordered then Some [] else None)]) (elems s) (gen s) in
   match add_each c s0 i items with
   | (s1, Err x) => (fst (set_clear s1 i), Err x)
-  | r => r
+  | (s1, r) => if fails then (fst (set_clear s1 i), Err EIter) else (s1, r)
   end.
 (* an owner with several collections passed to its constructor (Operation) *)
 Fixpoint construct (c : cfg) (s : state) (o : nat) (ordered : bool) (hk : option lcfg)
-         (itemss : list (list nat)) : res :=
+         (itemss : list (list nat * bool)) : res :=
   match itemss with
   | [] => (s, Ok)
-  | items :: r => bind (construct_one c s o ordered hk items) (fun s1 => construct c s1 o ordered hk r)
+  | (items, fails) :: r =>
+      bind (construct_one c s o ordered hk items fails) (fun s1 => construct c s1 o ordered hk r)
   end.
 
 (* MutableSequence.append(x) = self.insert(len(self), x) *)
@@ -608,11 +625,43 @@ Definition rekey (c : cfg) (s : state) (e o : nat) (mid : state -> state) : res 
 Definition owner_has_key (c : cfg) (s : state) (o : nat) (k : key) : bool :=
   existsb (fun st => Nat.eqb (s_owner st) o && dmem (norm c k) (s_backend st)) (sets s).
 
-(* element.id_short = k (k = None: unset) / qualifier.type = k / extension.name = k.
-   The syntax check of the new value, which raises before anything is read, is not modelled:
-   only well-formed names are used. *)
+(* _string_constraints.check_name_type / check_qualifier_type on ASCII strings: 1..128 characters
+   of the AASd-130 class (tab, lf, cr, >= 0x20) *)
+Definition ok_char (a : ascii) : bool :=
+  let n := nat_of_ascii a in (32 <=? n) || Nat.eqb n 9 || Nat.eqb n 10 || Nat.eqb n 13.
+Fixpoint all_chars (f : ascii -> bool) (k : string) : bool :=
+  match k with EmptyString => true | String a r => f a && all_chars f r end.
+Definition check_name (k : string) : option err :=
+  let l := String.length k in
+  if (l <? 1) || (128 <? l) then Some EValue
+  else if all_chars ok_char k then None else Some EValue.
+Definition is_alpha (a : ascii) : bool :=
+  let n := nat_of_ascii a in ((65 <=? n) && (n <=? 90)) || ((97 <=? n) && (n <=? 122)).
+Definition is_idchar (a : ascii) : bool :=
+  let n := nat_of_ascii a in is_alpha a || ((48 <=? n) && (n <=? 57)) || Nat.eqb n 95.
+(* Referable.validate_id_short: NameType, then AASd-002 *)
+Definition validate_id_short (k : string) : option err :=
+  match check_name k with
+  | Some x => Some x
+  | None => if negb (all_chars is_idchar k) then Some (EAasd 2)
+            else match k with
+                 | String a _ => if is_alpha a then None else Some (EAasd 2)
+                 | EmptyString => None
+                 end
+  end.
+Definition key_check (c : cfg) (nk : option key) : option err :=
+  match nk with
+  | Some (KName k) => match c_attr c with AId => validate_id_short k | _ => check_name k end
+  | _ => None
+  end.
+
+(* element.id_short = k (k = None: unset) / qualifier.type = k / extension.name = k; the syntax
+   check of the new value comes first (after the "unchanged" shortcut of the idShort setter) *)
 Definition rename (c : cfg) (s : state) (e : nat) (nk : option key) : res :=
   let el := elems s e in
+  match key_check c nk with
+  | Some x => if match c_attr c with AId => okey_eqb nk (e_key el) | _ => false end then (s, Ok) else (s, Err x)
+  | None =>
   match c_attr c with
   | AId =>
       if okey_eqb nk (e_key el) then (s, Ok) else
@@ -638,6 +687,7 @@ Definition rename (c : cfg) (s : state) (e : nat) (nk : option key) : res :=
               rekey c s e o (fun s' => set_key s' e nk)
           end
       end
+  end
   end.
 
 (* element.semantic_id = m  (elements of the pools carry no supplemental_semantic_id, so the
@@ -699,7 +749,7 @@ Inductive op :=
 | SetSlice (r : nat * nat) (a b : option Z) (es : list nat)
 | DelItem (r : nat * nat) (z : Z)
 | DelSlice (r : nat * nat) (a b : option Z)
-| Construct (o : nat) (ordered : bool) (hk : option lcfg) (itemss : list (list nat))
+| Construct (o : nat) (ordered : bool) (hk : option lcfg) (itemss : list (list nat * bool))
 | SetValue (r : nat * nat) (es : list nat)
 | Extend (r : nat * nat) (es : list nat)
 | Rename (e : nat) (k : option string)
@@ -718,7 +768,7 @@ Definition step (c : cfg) (s : state) (p : op) : res :=
   | Insert r z e => at_set s r (fun i => set_insert c s i z e)
   | SetItem r z e => at_set s r (fun i => set_setitem c s i z e)
   | SetSlice r a b es => at_set s r (fun i => set_setslice c s i a b es)
-  | DelItem r z => at_set s r (fun i => set_delslice c s i (Some z) (Some (z + 1)%Z))
+  | DelItem r z => at_set s r (fun i => set_delitem c s i z)
   | DelSlice r a b => at_set s r (fun i => set_delslice c s i a b)
   | Construct o ordered hk itemss => construct c s o ordered hk itemss
   | SetValue r es => at_set s r (fun i => set_value c s i es)
